@@ -96,6 +96,9 @@ MODULES = {
     "zed.a.b": "class ZAB:\n    pass\n",
     # a module whose dotted path has a component called `typing`
     "zed.typing": "class Shape:\n    pass\n",
+    # names of one module that differ only in leading underscores
+    "tree": "class Node:\n    pass\n\n\nclass _Node:\n    pass\n\n\nclass Leaf:\n    pass\n\n\nclass _Leaf:\n    pass\n\n\n"
+            "class __Tree:\n    pass\n\n\nclass Tree:\n    pass\n",
 }
 
 # the class pool; order fixes the class numbering (>= 16 in order of first registration)
@@ -117,10 +120,13 @@ POOL = [
     ("shapes", "Registry"), ("shapes", "Registry.Entry"), ("shapes", "Registry.Pair"), ("shapes", "K"),
     ("zed", "Z"), ("zed", "K"), ("zed.a", "ZA"), ("zed.a", "K"), ("zed.a.b", "ZAB"), ("zed.a.b", "K"),
     ("zed.typing", "Shape"), ("zed.typing", "K"),
+    ("tree", "Node"), ("tree", "_Node"), ("tree", "Leaf"), ("tree", "_Leaf"), ("tree", "__Tree"), ("tree", "Tree"), ("tree", "K"),
+    # a class of the PUBLIC module io next to the `_io` classes (both end up in `from io import ...` lines)
+    ("io", "UnsupportedOperation"),
 ]
 TARGETS = list(MODULES)
 # standard-library modules whose name starts with an underscore (types of threading.RLock(), struct.Struct(...), ...)
-STDLIB_UNDERSCORE = ["_io", "_thread", "_struct", "_csv", "_random", "_queue"]
+STDLIB_UNDERSCORE = ["_io", "_thread", "_struct", "_csv", "_random", "_queue", "io"]
 
 # subscripted user generics: (module, qualname of the nested generic class, builtin argument names).  In the class table
 # such an alias is a pseudo class whose qualname is the alias text ("Registry.Entry[int]"): that is how repr() prints it,
